@@ -335,12 +335,16 @@ def problem_text(tree, p):
 
 def trees_for(run: Run):
     if not run.thorough:
-        return list(G.depth1((1, 2, 3), mixed=False, families=FAMILIES))
+        return list(G.depth1((1, 2, 3), mixed=True, families=FAMILIES))
     return list(G.depth1((1, 2, 3, 4), mixed=True, families=FAMILIES))
 
 
 def main(run: Run):
-    trees = [(f, t) for f, t in trees_for(run) if eligible(t)]
+    only = getattr(run, "only", None)  # debug: --only fam1,fam2 (never used for verdicts)
+    trees = [(f, t) for f, t in trees_for(run) if eligible(t) and (not only or f in only)]
+    if only:
+        run.capped = True
+        run.note(f"restricted to families {sorted(only)} (debug run)")
     run.count("operations_generated", len(trees))
     indexed = [(i, fam, tree) for i, (fam, tree) in enumerate(trees)]
     by_i = {i: (fam, tree) for i, fam, tree in indexed}
@@ -385,7 +389,7 @@ def main(run: Run):
     run.coverage_extra["per_family"] = {f: {st: fam_counts[(f, st)] for st in ("ok", "violation", "skipped")
                                             if fam_counts[(f, st)]} for f in fams}
     c3 = run.counters.get("compared_three_ways", 0)
-    if c3 < 1000 or c3 * 3 < run.counters.get("evaluations", 0):
+    if (c3 < 1000 and not only) or c3 * 3 < run.counters.get("evaluations", 0):
         run.tool_error(f"vacuous: only {c3} of {run.counters.get('evaluations', 0)} operand valuations were compared three ways")
     run.assume("vsim (own VHDL-2008 subset simulator) implements IEEE 1076 / numeric_std semantics")
     run.assume("operand valuations outside the documented domain (division by zero, index out of range, negative shift) are not compared")
